@@ -35,6 +35,8 @@ mutation OpB($id: ID!) {
 }
 '''
 QUERY_INVALID = QUERY_VALID.replace("id name old", "id nope old")
+QUERY_WIDE = QUERY_VALID.replace("  node {", "".join(
+    "  w%d: a(c: $c) { id name born color mood }\n" % k for k in range(260)) + "  node {", 1)
 CLI = os.path.join(vlib.WORK, "target-cli", "debug", "graphql-client")
 
 
@@ -105,7 +107,7 @@ def setup(root, case):
     if case["placement"] == "outdir":
         os.makedirs(os.path.join(root, "out"))
     stext = "type Query { " if case["program"] == "badSchema" else SCHEMA
-    qtext = QUERY_INVALID if case["program"] == "invalidQuery" else QUERY_VALID
+    qtext = QUERY_INVALID if case["program"] == "invalidQuery" else QUERY_WIDE if case["program"] == "validWide" else QUERY_VALID
     if case["qname"] == "link.graphql":
         # both inputs are symbolic links into a content-addressed store (other names, no extension)
         os.makedirs(os.path.join(root, "store"))
@@ -164,7 +166,7 @@ def main(tier, replay=None, selftest=False):
     else:
         sel, left = pick(cases, rng, 70 if tier == "quick" else 1500)
         # make sure failures and successes of every program kind are in
-        for prog in ("valid", "invalidQuery", "missingQuery", "badSchema"):
+        for prog in ("valid", "validWide", "invalidQuery", "missingQuery", "badSchema"):
             if not any(c["program"] == prog for c in sel):
                 sel.append(next(c for c in cases if c["program"] == prog))
     ck.notes["pairs_left_uncovered"] = left
@@ -176,13 +178,17 @@ def main(tier, replay=None, selftest=False):
         root = os.path.join(base, "run%d" % n)
         setup(root, case)
         # a previous, longer output at the same destination must be replaced entirely
-        prerun = case["program"] == "valid" and case["flags"]["selected_operation"] and case["placement"] != "outdirMissing" and n % 2 == 0
+        prerun = case["program"] in ("valid", "validWide") and case["flags"]["selected_operation"] and case["placement"] != "outdirMissing" and n % 2 == 0
         if prerun:
             pre = dict(case, flags=dict(case["flags"], selected_operation=""))
             subprocess.run([CLI] + argv(pre, root), stdout=subprocess.PIPE, stderr=subprocess.PIPE, timeout=120)
         before = snapshot(root)
-        p = subprocess.run([CLI] + argv(case, root), stdout=subprocess.PIPE, stderr=subprocess.PIPE, text=True, timeout=120,
-                           env=dict(os.environ, RUST_LOG="off"))
+        try:
+            p = subprocess.run([CLI] + argv(case, root), stdout=subprocess.PIPE, stderr=subprocess.PIPE, text=True, timeout=120,
+                               env=dict(os.environ, RUST_LOG="off"))
+        except subprocess.TimeoutExpired:
+            # (a process that hangs is data, not a tool error)
+            p = subprocess.CompletedProcess([CLI], returncode=-999, stdout="", stderr="the command did not terminate within 120 s")
         after = snapshot(root)
         created = sorted(k for k in after if k not in before)
         modified = sorted(k for k in after if k in before and after[k] != before[k])
